@@ -1,0 +1,63 @@
+//go:build verif
+
+package device
+
+// Exports for the verification harness (build tag verif only).  Add-only.
+
+type VerifConst struct {
+	Name string
+	Val  uint64
+}
+
+func VerifConstants() []VerifConst {
+	return []VerifConst{
+		{"RekeyAfterMessages", RekeyAfterMessages},
+		{"RejectAfterMessages", RejectAfterMessages},
+		{"RekeyAfterTime", uint64(RekeyAfterTime)},
+		{"RekeyAttemptTime", uint64(RekeyAttemptTime)},
+		{"RekeyTimeout", uint64(RekeyTimeout)},
+		{"MaxTimerHandshakes", MaxTimerHandshakes},
+		{"RekeyTimeoutJitterMaxMs", RekeyTimeoutJitterMaxMs},
+		{"RejectAfterTime", uint64(RejectAfterTime)},
+		{"KeepaliveTimeout", uint64(KeepaliveTimeout)},
+		{"CookieRefreshTime", uint64(CookieRefreshTime)},
+		{"HandshakeInitationRate", uint64(HandshakeInitationRate)},
+		{"PaddingMultiple", PaddingMultiple},
+		{"MinMessageSize", MinMessageSize},
+		{"MaxMessageSize", MaxMessageSize},
+		{"MaxContentSize", MaxContentSize},
+		{"UnderLoadAfterTime", uint64(UnderLoadAfterTime)},
+		{"MaxPeers", MaxPeers},
+		{"MessageInitiationType", MessageInitiationType},
+		{"MessageResponseType", MessageResponseType},
+		{"MessageCookieReplyType", MessageCookieReplyType},
+		{"MessageTransportType", MessageTransportType},
+		{"MessageInitiationSize", MessageInitiationSize},
+		{"MessageResponseSize", MessageResponseSize},
+		{"MessageCookieReplySize", MessageCookieReplySize},
+		{"MessageTransportHeaderSize", MessageTransportHeaderSize},
+		{"MessageTransportSize", MessageTransportSize},
+		{"MessageKeepaliveSize", MessageKeepaliveSize},
+		{"MessageHandshakeSize", MessageHandshakeSize},
+		{"MessageTransportOffsetReceiver", MessageTransportOffsetReceiver},
+		{"MessageTransportOffsetCounter", MessageTransportOffsetCounter},
+		{"MessageTransportOffsetContent", MessageTransportOffsetContent},
+		{"IPv4offsetTotalLength", IPv4offsetTotalLength},
+		{"IPv4offsetSrc", IPv4offsetSrc},
+		{"IPv4offsetDst", IPv4offsetDst},
+		{"IPv6offsetPayloadLength", IPv6offsetPayloadLength},
+		{"IPv6offsetSrc", IPv6offsetSrc},
+		{"IPv6offsetDst", IPv6offsetDst},
+		{"QueueStagedSize", QueueStagedSize},
+		{"QueueOutboundSize", QueueOutboundSize},
+		{"QueueInboundSize", QueueInboundSize},
+		{"QueueHandshakeSize", QueueHandshakeSize},
+		{"MaxSegmentSize", MaxSegmentSize},
+		{"CookieRefreshTimeSecs", uint64(CookieRefreshTime.Seconds())},
+	}
+}
+
+// VerifCalculatePaddingSize exposes calculatePaddingSize.
+func VerifCalculatePaddingSize(packetSize, mtu int) int {
+	return calculatePaddingSize(packetSize, mtu)
+}
